@@ -390,6 +390,8 @@ BRANCH_POOL = [
     lambda i: branch(ar(f"b{i}", "one", "str", f"--key{i}"), ar(f"c{i}", "opt", "int", f"--opt{i}")),
     lambda i: branch(rf(f"b{i}", "one", f"--on{i}"), sw(f"c{i}", f"--extra{i}")),
     lambda i: branch(ar(f"b{i}", "one", "int", f"--lo{i}"), ar(f"c{i}", "one", "int", f"--hi{i}")),
+    lambda i: branch(rf(f"b{i}", "one", f"--tag{i}"), ar(f"c{i}", "some", "str", f"-{'wxyz'[i]}")),
+    lambda i: branch(rf(f"b{i}", "one", f"--set{i}"), ar(f"c{i}", "many", "int", f"--val{i}")),
 ]
 
 
@@ -398,7 +400,7 @@ def alt_family(seed, n, maxlen=4, budget=8000):
     out = []
     wraps = ["one", "opt", "many", "some"]
     while len(out) < n:
-        nb = rnd.choice([2, 2, 3, 3, 4])
+        nb = rnd.choice([1, 2, 2, 3, 3, 4])
         picks = [rnd.randrange(len(BRANCH_POOL)) for _ in range(nb)]
         branches = [BRANCH_POOL[p](i) for i, p in enumerate(picks)]
         g = altf("g0", wraps[len(out) % 4], *branches)
@@ -516,4 +518,19 @@ def spell_family(seed, n, maxlen=2, budget=9000, vals=None):
                   words=("w",), eqvals=ev, clusters=(ctx in (1, 3)), clusters3=(ctx == 1 and i % 3 == 0))
         trim_to_budget(d, budget)
         out.append(d)
+    return out
+
+
+def group_family(seed, maxlen=4, budget=8000):
+    """optional / repeated / plain groups of two items (a choice with a single branch): deterministic coverage"""
+    out = []
+    for p in range(4, len(BRANCH_POOL)):
+        for wrap in ("one", "opt", "many", "some"):
+            g = altf("g0", wrap, BRANCH_POOL[p](0))
+            others = [sw("o1", "-v")] if (p + len(out)) % 2 else []
+            tail = postail(pos("p0", "opt")) if len(out) % 3 == 0 else NOTAIL
+            d = mkdef(f"grp{seed}_{len(out)}", level(others + [g], tail), maxlen=maxlen, extras=("unk",) if len(out) % 2 else (),
+                      spells=("sep",) if len(out) % 2 else ("eq",), words=("1", "x") if len(out) % 4 == 0 else ("1",))
+            galpha_trim(d, budget)
+            out.append(d)
     return out
